@@ -394,8 +394,7 @@ macro("GINV", ["root"],
       "        ENTRY_GOOD(root, DOC_AT(root, rel).children_shard_lists[k])))), rel='U')")
 
 contract(MF, CTX + ".shard_lists", props=["C04", "C09"], params={}, returns="dict:ref:ShardsList",
-    modifies=[], property=True, ensures=["result is self._shards_lists"], verify=False, assumed=True,
-    note="one-line getter (return self._shards_lists): dict identity is outside the value model; source pinned by hash (baseline/assumed_sources.json)")
+    modifies=[], property=True, ensures=["result is self._shards_lists"])
 
 contract(MF, CTX + ".__init__", props=["C17", "C10", "C09"],
     params={"dataset_root_path": "U", "dataset_structure": "ref:DatasetStructure",
